@@ -790,7 +790,12 @@ impl<'a> World<'a> {
                     None => (None, None),
                 }
             } else {
-                match e.via_v6 {
+                // link-local multicast: the scope id of the destination selects the interface
+                let scope = match e.dest {
+                    SocketAddr::V6(a) if a.scope_id() != 0 => Some(a.scope_id()),
+                    _ => None,
+                };
+                match scope.or(e.via_v6) {
                     Some(idx) => {
                         let i = ifs.iter().find(|i| i.index == idx);
                         let ip = i.and_then(|i| {
